@@ -1,6 +1,7 @@
 package vc
 
 import (
+	"strings"
 	"fmt"
 	"go/types"
 
@@ -68,6 +69,7 @@ func init() {
 		"(*sync/atomic.Bool).Store": intrAtomicStore,
 		"(*sync/atomic.Bool).Load":  intrAtomicLoad,
 		"fmt.Errorf":                intrNonNilError,
+		"fmt.Sprintf":               intrSprintf,
 		"errors.New":                intrNonNilError,
 		"math.IsNaN": func(c *Ctx, st *State, fr *Frame, ins ssa.Instruction, f *ssa.Function, res ssa.Value, args []Value) []cont {
 			a := c.toTerm(st, args[0])
@@ -165,10 +167,29 @@ func intrLock(c *Ctx, st *State, fr *Frame, ins ssa.Instruction, f *ssa.Function
 	}
 	c.acquireLockState(st, m)
 	// other goroutines may have changed everything the lock protects; the invariant holds
-	if o, ok := st.owners[m.S]; ok {
+	if o, ok := st.owners[m.S]; ok && !c.isFreshObject(st, o.Obj) {
+		// Published[obj]: the object existed when this function was called, or this function has
+		// already released its lock once. Only then can others have changed it.
+		pub := True
+		if c.cur != nil && c.allocatesType(c.cur.fn, o.Struct) {
+			pub = Select(c.Arr(st, "Published", ArraySort(SInt, SBool)), o.Obj)
+		}
+		before := make(map[string]Term, len(st.arrays))
+		for k, v := range st.arrays {
+			before[k] = v
+		}
 		c.havocGuardedOf(st, o.Obj, types.NewPointer(o.Struct), o.Field)
-		c.assumeLockInv(st, fr, o)
+		if pub.S != "true" {
+			for fam, nw := range st.arrays {
+				if old, ok := before[fam]; ok && old.S != nw.S {
+					c.SetArr(st, fam, Ite(pub, nw, old))
+				}
+			}
+		}
+		c.assumeLockInv(st, fr, o, pub)
 	}
+	// (an object created by this function whose lock has never been released is not shared
+	// yet: nobody else can have changed it, and its invariant need not hold before the first Unlock)
 	if res != nil {
 		fr.regs[res] = Tuple{}
 	}
@@ -185,6 +206,8 @@ func intrUnlock(c *Ctx, st *State, fr *Frame, ins ssa.Instruction, f *ssa.Functi
 	c.releaseLockState(st, m)
 	if o, ok := st.owners[m.S]; ok {
 		// from here on other goroutines may change the guarded fields again
+		delete(st.freshObjs, o.Obj.S)
+		c.SetArr(st, "Published", Store(c.Arr(st, "Published", ArraySort(SInt, SBool)), o.Obj, True))
 		c.havocGuardedOf(st, o.Obj, types.NewPointer(o.Struct), o.Field)
 	}
 	if res != nil {
@@ -211,7 +234,7 @@ func (c *Ctx) lockInvEnv(st *State, o ownerInfo) (*specEnv, *LockInv) {
 	return env, li
 }
 
-func (c *Ctx) assumeLockInv(st *State, fr *Frame, o ownerInfo) {
+func (c *Ctx) assumeLockInv(st *State, fr *Frame, o ownerInfo, guard Term) {
 	env, li := c.lockInvEnv(st, o)
 	if li == nil {
 		return
@@ -222,7 +245,7 @@ func (c *Ctx) assumeLockInv(st *State, fr *Frame, o ownerInfo) {
 			c.Errorf("CONTRACT-ERROR %s: %v", cl.Line, err)
 			continue
 		}
-		st.Assume(t)
+		st.Assume(Implies(guard, t))
 	}
 }
 
@@ -362,4 +385,83 @@ func intrWithCancel(c *Ctx, st *State, fr *Frame, ins ssa.Instruction, f *ssa.Fu
 		fr.regs[res] = Tuple{ctx, cancel}
 	}
 	return one(st, fr)
+}
+
+// fmt.Sprintf is a deterministic function of its format and arguments: it is modelled by the
+// uninterpreted function sprintf_<n>(format, arg1..argn) (also available to contracts as
+// sprintf(format, any(a1), ...)). Nothing else is assumed about the resulting string.
+func intrSprintf(c *Ctx, st *State, fr *Frame, ins ssa.Instruction, f *ssa.Function, res ssa.Value, args []Value) []cont {
+	fresh := func() []cont {
+		if res != nil {
+			fr.regs[res] = c.FreshConst(st, "sprintf", SString)
+		}
+		return one(st, fr)
+	}
+	var call *ssa.CallCommon
+	switch x := ins.(type) {
+	case *ssa.Call:
+		call = &x.Call
+	case *ssa.Defer:
+		call = &x.Call
+	}
+	if call == nil || len(call.Args) != 2 || len(args) != 2 {
+		return fresh()
+	}
+	n := -1
+	switch v := call.Args[1].(type) {
+	case *ssa.Const:
+		n = 0
+	case *ssa.Slice:
+		if pt, ok := v.X.Type().Underlying().(*types.Pointer); ok {
+			if at, ok := pt.Elem().Underlying().(*types.Array); ok && v.Low == nil && v.High == nil {
+				n = int(at.Len())
+			}
+		}
+	}
+	if n < 0 || n > 6 {
+		return fresh()
+	}
+	format := c.toTerm(st, args[0])
+	parts := []string{format.S}
+	sorts := []Sort{SString}
+	if n > 0 {
+		sl := c.toTerm(st, args[1])
+		et := call.Args[1].Type().Underlying().(*types.Slice).Elem()
+		for i := 0; i < n; i++ {
+			l := &Loc{Kind: LocElem, Base: T(SInt, "(sl_arr %s)", sl.S), Idx: T(SInt, "(sidx %s %d)", sl.S, i), Type: et, Root: et}
+			parts = append(parts, c.LoadLoc(st, l, false).S)
+			sorts = append(sorts, SAny)
+		}
+	}
+	fn := fmt.Sprintf("sprintf_%d", n)
+	c.Reg.DeclFun(fn, sorts, SString)
+	if res != nil {
+		if n == 0 {
+			fr.regs[res] = T(SString, "(%s %s)", fn, parts[0])
+		} else {
+			fr.regs[res] = T(SString, "(%s %s)", fn, strings.Join(parts, " "))
+		}
+	}
+	return one(st, fr)
+}
+
+// allocatesType: does fn itself create objects of struct type t? (Only then can a lock owner
+// met in fn be an object that is not shared yet.)
+func (c *Ctx) allocatesType(fn *ssa.Function, t types.Type) bool {
+	if c.allocCache == nil {
+		c.allocCache = map[*ssa.Function]map[string]bool{}
+	}
+	m, ok := c.allocCache[fn]
+	if !ok {
+		m = map[string]bool{}
+		for _, b := range fn.Blocks {
+			for _, ins := range b.Instrs {
+				if a, ok := ins.(*ssa.Alloc); ok {
+					m[c.Reg.TypeKey(deref(a.Type()))] = true
+				}
+			}
+		}
+		c.allocCache[fn] = m
+	}
+	return m[c.Reg.TypeKey(t)]
 }
